@@ -350,8 +350,8 @@ type cMethodModel struct {
 	Style    string
 	Spec     string
 	Body     string
-	Min, Max int  // accepted positional counts: Min <= k <= Max (Max < 0: unbounded)
-	SkipOver int  // do not judge k > SkipOver (mrbc style: extra arguments are not checked in C)
+	Min, Max int // accepted positional counts: Min <= k <= Max (Max < 0: unbounded)
+	SkipOver int // do not judge k > SkipOver (mrbc style: extra arguments are not checked in C)
 	ArgVals  []string
 }
 
